@@ -16,6 +16,7 @@ import (
 	"go/constant"
 	"go/token"
 	"go/types"
+	"os"
 	"sort"
 	"strings"
 
@@ -692,6 +693,9 @@ func (g *gram) feed(c *gconf, st gstack, data gval) []feedOut {
 	if st.expectsKey() {
 		// whatever is written now opens a member name: remember where
 		g.keyStart = append(g.keyStart[:0], g.siteStack...)
+		if os.Getenv("APCHECK_KEYDEBUG") != "" && len(g.siteStack) > 0 {
+			fmt.Printf("KEYDEBUG %s K=%v Cls=%v IsStr=%v Empty=%v S=%q\n", g.w.InstrPos(g.siteStack[len(g.siteStack)-1]), data.K, data.Cls, data.IsStr, data.Empty, data.S)
+		}
 	}
 	switch data.K {
 	case gByteVal:
@@ -732,9 +736,17 @@ func (g *gram) feed(c *gconf, st gstack, data gval) []feedOut {
 		n, e := st.feedConst(data.S)
 		return []feedOut{{st: n, err: e, what: fmt.Sprintf("%q", data.S)}}
 	case clsSnap:
+		if st.expectsKey() {
+			// a member name built in a buffer of its own (jsonQuoted(tag)) and copied in: its bytes came from data
+			g.noteDynKey()
+		}
 		n, e := st.feedSnapshot(data.Stack)
 		return []feedOut{{st: n, err: e, what: "buffer[" + string(data.Stack) + "]"}}
 	case clsValue:
+		if st.expectsKey() && data.IsStr && data.Empty != triYes {
+			// a member name that arrives as a ready-made JSON string (b.Write(jsonQuoted(tag))): data-driven as well
+			g.noteDynKey()
+		}
 		return maybe(func() feedOut {
 			n, e := st.feedValue(data.IsStr)
 			return feedOut{st: n, err: e, what: "a JSON value"}
